@@ -18,9 +18,28 @@ for d in sorted(glob.glob(os.path.join(ROOT, "seeded", "*", "meta.json"))):
     c = "; ".join(f"{k}: exit {v['exit']}, {v['violations']} viol., {v['with_failing_input']} with input" for k, v in cb.items()) or "not run yet"
     rows.append(f"| `seeded/{sid}` {cell(m['title'][:110])} | {m['property']} | {cell(m['needs_to_manifest'][:200])} | {cell(c)} |")
 st = "\n".join(rows)
+# per-property status
+props = [json.loads(l) for l in open(os.path.join(ROOT, "properties.jsonl"))]
+rows = ["| property | theorems audited | `_partial` theorems (missing hypothesis in Props file) | quick: cases / wall-clock | open findings | seeds caught (quick) |", "|---|---|---|---|---|---|"]
+for pr in props:
+    pid = pr["id"]
+    try: ev = json.load(open(os.path.join(ROOT, "evidence", pid + ".json")))
+    except Exception: ev = None
+    src = open(os.path.join(ROOT, "lean", "Rustic", "Props", pid + ".lean")).read() if os.path.exists(os.path.join(ROOT, "lean", "Rustic", "Props", pid + ".lean")) else ""
+    partial = re.findall(r"^theorem\s+(\S*_partial\S*)", src, re.M)
+    nopen = sum(1 for k in kf if k["property"] == pid and k["status"] == "open")
+    seeds = []
+    for d in sorted(glob.glob(os.path.join(ROOT, "seeded", pid + "-*", "meta.json"))):
+        m = json.load(open(d)); cb = m.get("caught_by") or {}
+        own = cb.get(f"{pid}:quick")
+        hit = bool(own and own["exit"] == 1) or any(v["exit"] == 1 for v in cb.values())
+        seeds.append(os.path.basename(os.path.dirname(d)).split("-")[1] + ("✓" if hit else "✗"))
+    cov = ev["coverage"] if ev else {}
+    rows.append(f"| {pid} {cell(pr['title'][:60])} | {cov.get('discharged','?')}/{cov.get('obligations','?')} | {', '.join(partial) or '—'} | {cov.get('programs','?')} / {ev['wall_s'] if ev else '?'} s | {nopen} | {' '.join(seeds) or '—'} |")
+stt = "\n".join(rows)
 p = os.path.join(ROOT, "DESIGN.md")
 s = open(p).read()
-for tag, body in (("FINDINGS-TABLE", ft), ("SEEDED-TABLE", st)):
+for tag, body in (("FINDINGS-TABLE", ft), ("SEEDED-TABLE", st), ("STATUS-TABLE", stt)):
     s = re.sub(rf"<!-- {tag} -->.*?<!-- /{tag} -->", f"<!-- {tag} -->\n{body}\n<!-- /{tag} -->", s, flags=re.S)
 open(p, "w").write(s)
 print("tables regenerated")
